@@ -30,7 +30,7 @@ pub fn zero_ops() -> Vec<OpK> {
 }
 
 pub fn image_ops() -> Vec<OpK> {
-    vec![OpK::Conv { sr: 1, sc: 1 }, OpK::Add, OpK::Mul, OpK::Relu, OpK::Sum(2), OpK::Sigmoid]
+    vec![OpK::Conv { sr: 1, sc: 1 }, OpK::Conv { sr: 1, sc: 3 }, OpK::Add, OpK::Mul, OpK::Relu, OpK::Sum(2), OpK::Sigmoid]
 }
 
 pub fn full_ops() -> Vec<OpK> {
